@@ -64,9 +64,14 @@ var forkSchedules = [][4]uint64{
 
 func genView(rt *rapid.T, o viewOpts) *gossipbackend.ViewCase {
 	vc := &gossipbackend.ViewCase{}
-	large := rapid.IntRange(0, 3).Draw(rt, "family") == 0
+	fam := rapid.IntRange(0, 7).Draw(rt, "family")
+	large := fam <= 1
+	many := fam == 2 // more than ATTESTATION_SUBNET_COUNT committees per epoch: the subnet computation wraps
 	forks := rapid.SampledFrom(forkSchedules).Draw(rt, "forks")
 	shard := rapid.SampledFrom([]uint64{0, 1, 2, 2, 64}).Draw(rt, "shard_committee_period")
+	if o.tour >= 0 {
+		many = false
+	}
 	switch o.tour {
 	case 0:
 		large, forks, shard = false, forkSchedules[0], 1
@@ -99,6 +104,11 @@ func genView(rt *rapid.T, o viewOpts) *gossipbackend.ViewCase {
 		if o.tour >= 0 {
 			ov["SYNC_COMMITTEE_SIZE"] = 128
 		}
+	} else if many {
+		// 32 one-member committees per slot, 128 per epoch: committees_since_epoch_start + index passes 64
+		active = rapid.SampledFrom([]int{130, 136, 160}).Draw(rt, "active")
+		ov["TARGET_COMMITTEE_SIZE"], ov["MAX_COMMITTEES_PER_SLOT"] = 1, 32
+		ov["SYNC_COMMITTEE_SIZE"] = 16
 	} else {
 		active = rapid.IntRange(16, 40).Draw(rt, "active")
 		ov["TARGET_COMMITTEE_SIZE"] = 2
@@ -492,6 +502,9 @@ func record(r *report.Run, c *Case, out *outcome) {
 	fork := refspec.ForkNames[out.fork]
 	if out.tag != "" {
 		r.Class("scenario:" + out.tag)
+	}
+	if c.View.Config.Override["MAX_COMMITTEES_PER_SLOT"]*c.View.Config.Override["SLOTS_PER_EPOCH"] > 64 && c.Msg.Topic == "attestation" {
+		r.Class("scenario:attestation-on-a-view-with->64-committees-per-epoch")
 	}
 	if out.nontrivial {
 		r.NonTrivial(out.key)
